@@ -199,10 +199,41 @@ func famMapVal(k, v Sort) string                    { return "MV." + string(k) +
 func famMapLen(k, v Sort) string                    { return "ML." + string(k) + "." + string(v) }
 
 func (st *State) fieldFam(si *StructInfo, i int) *Family {
-	return st.family(famField(si.Sort, si.Fields[i].Name), []Sort{SInt}, si.Fields[i].Sort)
+	name := famField(si.Sort, si.Fields[i].Name)
+	_, existed := st.fams[name]
+	f := st.family(name, []Sort{SInt}, si.Fields[i].Sort)
+	if !existed {
+		// entry-heap closure: what the heap holds at function entry refers to objects that exist at entry
+		sym := sanitize(name) + "@0"
+		switch si.Fields[i].Type.Underlying().(type) {
+		case *types.Pointer, *types.Map, *types.Signature:
+			st.sc.emit("(assert (forall ((o Int)) (! (< (%[1]s o) %[2]s) :pattern ((%[1]s o)))))", sym, st.alloc0.S)
+		case *types.Slice:
+			st.sc.emit("(assert (forall ((o Int)) (! (< (s-arr (%[1]s o)) %[2]s) :pattern ((%[1]s o)))))", sym, st.alloc0.S)
+		}
+	}
+	return f
 }
-func (st *State) cellFam(s Sort) *Family { return st.family(famCell(s), []Sort{SInt}, s) }
-func (st *State) elemFam(s Sort) *Family { return st.family(famElem(s), []Sort{SInt, SInt, SInt}, s) }
+func (st *State) cellFam(s Sort) *Family {
+	name := famCell(s)
+	_, existed := st.fams[name]
+	f := st.family(name, []Sort{SInt}, s)
+	if !existed && s == SSlice {
+		sym := sanitize(name) + "@0"
+		st.sc.emit("(assert (forall ((o Int)) (! (< (s-arr (%[1]s o)) %[2]s) :pattern ((%[1]s o)))))", sym, st.alloc0.S)
+	}
+	return f
+}
+func (st *State) elemFam(s Sort) *Family {
+	name := famElem(s)
+	_, existed := st.fams[name]
+	f := st.family(name, []Sort{SInt, SInt, SInt}, s)
+	if !existed && s == SSlice {
+		sym := sanitize(name) + "@0"
+		st.sc.emit("(assert (forall ((a Int) (o Int) (i Int)) (! (< (s-arr (%[1]s a o i)) %[2]s) :pattern ((%[1]s a o i)))))", sym, st.alloc0.S)
+	}
+	return f
+}
 func (st *State) mapFams(k, v Sort) (dom, val, ln *Family) {
 	return st.family(famMapDom(k, v), []Sort{SInt, k}, SBool), st.family(famMapVal(k, v), []Sort{SInt, k}, v), st.family(famMapLen(k, v), []Sort{SInt}, SInt)
 }
